@@ -11,6 +11,8 @@
 //                                          x87 significand; print_f narrows it to double first, so the
 //                                          oracle judges the text against (double)arg
 //   pfa <fmt-hex> <bits>                   %a / %A (probe of finding C13-hex-float only; not modelled)
+//   sh|shm <fmt-hex> <neg> <text-hex> [<int>..]  the ISO shape predicate (Shape.lean / iso::shape) on a text:
+//                                          sh = a text printed by glibc (must be accepted), shm = a mutated text
 //   ar cvt <se> <mant>                     (double) of a long double: one rounding (ties the narrowing)
 //   ar <op> <bits> [<bits>|<int>]          one arithmetic primitive on the host FPU/libm
 //                                          (add mul div fmod modf round pow): ties the
@@ -318,6 +320,131 @@ static Shape check_shape(const Dir &d, const std::string &s, double x)
     return S;
 }
 
+
+// ---------------------------------------------------------------- ISO shape predicate
+// C++ re-implementation of `isoShape` of lean/IgrisModel/C13/Shape.lean (ISO C 7.21.6.1 for
+// f/e/g of a finite value): a decidable predicate on the text given the directive and the sign
+// of the argument.  It judges the output of igris and of glibc (op pf), and the `sh`/`shm` ops
+// compare this implementation with the Lean one on glibc texts and on mutated texts.
+namespace iso
+{
+static bool is_dig(char c) { return c >= '0' && c <= '9'; }
+static bool all_dig(const std::string &s) { for (char c : s) if (!is_dig(c)) return false; return true; }
+static bool all_zero(const std::string &s) { for (char c : s) if (c != '0') return false; return true; }
+// exponent part e±dd; returns false if malformed
+static bool exp_shape(bool upper, const std::string &t, long &X)
+{
+    if (t.size() < 2) return false;
+    char c = t[0], sg = t[1];
+    std::string ds = t.substr(2);
+    if (c != (upper ? 'E' : 'e')) return false;
+    if (sg != '+' && sg != '-') return false;
+    if (!all_dig(ds) || ds.size() < 2) return false;
+    if (ds.size() != 2 && ds[0] == '0') return false;
+    if (sg == '-' && all_zero(ds)) return false;
+    // the value (the Lean side uses unbounded integers: saturate far above every exponent and precision)
+    long v = 0;
+    for (char ch : ds) { v = v * 10 + (ch - '0'); if (v > 1000000000L) v = 1000000000L; }
+    X = sg == '-' ? -v : v;
+    return true;
+}
+struct Parts { std::string intd, frac, rest; bool dot = false; };
+static Parts split_num(const std::string &num)
+{
+    Parts p;
+    size_t i = 0;
+    while (i < num.size() && is_dig(num[i])) i++;
+    p.intd = num.substr(0, i);
+    if (i < num.size() && num[i] == '.')
+    {
+        p.dot = true;
+        size_t j = i + 1;
+        while (j < num.size() && is_dig(num[j])) j++;
+        p.frac = num.substr(i + 1, j - i - 1);
+        p.rest = num.substr(j);
+    }
+    else
+        p.rest = num.substr(i);
+    return p;
+}
+static long text_exp(const std::string &intd, const std::string &frac)
+{
+    if (intd != "0") return (long)intd.size() - 1;
+    if (all_zero(frac)) return 0;
+    size_t z = 0;
+    while (z < frac.size() && frac[z] == '0') z++;
+    return -(long)z - 1;
+}
+// conv: 'f' 'e' 'g'
+static bool num_shape(char conv, bool hash, bool upper, long P, const std::string &num)
+{
+    Parts n = split_num(num);
+    if (n.intd.empty()) return false;
+    if (n.intd.size() != 1 && n.intd[0] == '0') return false;
+    if (conv == 'f')
+        return n.rest.empty() && (long)n.frac.size() == P && n.dot == (P > 0 || hash);
+    if (conv == 'e')
+    {
+        if (n.intd.size() != 1 || (long)n.frac.size() != P || n.dot != (P > 0 || hash)) return false;
+        long X;
+        if (!exp_shape(upper, n.rest, X)) return false;
+        return n.intd != "0" || (all_zero(n.frac) && X == 0);
+    }
+    long Pg = P == 0 ? 1 : P;
+    if (hash) { if (!n.dot) return false; }
+    else
+    {
+        if (n.dot && n.frac.empty()) return false;
+        if (!n.frac.empty() && n.frac.back() == '0') return false;
+    }
+    if (n.rest.empty())
+    {
+        long X = text_exp(n.intd, n.frac);
+        if (!(-4 <= X && X < Pg)) return false;
+        return hash ? (long)n.frac.size() == Pg - 1 - X : (long)n.frac.size() <= Pg - 1 - X;
+    }
+    if (n.intd.size() != 1 || n.intd == "0") return false;
+    long X;
+    if (!exp_shape(upper, n.rest, X)) return false;
+    if (!(X < -4 || Pg <= X)) return false;
+    return hash ? (long)n.frac.size() == Pg - 1 : (long)n.frac.size() <= Pg - 1;
+}
+static bool shape(const Dir &d, bool neg, const std::string &out)
+{
+    char conv = (char)tolower(d.conv);
+    bool upper = isupper((unsigned char)d.conv);
+    long P = d.has_prec ? d.prec : 6;
+    std::string sign = neg ? "-" : d.plus ? "+" : d.space ? " " : "";
+    size_t n = out.size();
+    for (size_t pad = 0; pad <= n; pad++)
+    {
+        if (pad + sign.size() > n) continue;
+        if (!(pad == 0 || (long)n == d.width)) continue;
+        if (!(d.width <= (long)n)) continue;
+        size_t numlen = n - pad - sign.size();
+        std::string num;
+        bool ok;
+        if (d.minus)
+        {
+            num = out.substr(sign.size(), numlen);
+            ok = out == sign + num + std::string(pad, ' ');
+        }
+        else if (d.zero)
+        {
+            num = out.substr(sign.size() + pad);
+            ok = out == sign + std::string(pad, '0') + num;
+        }
+        else
+        {
+            num = out.substr(pad + sign.size());
+            ok = out == std::string(pad, ' ') + sign + num;
+        }
+        if (ok && num_shape(conv, d.hash, upper, P, num)) return true;
+    }
+    return false;
+}
+} // namespace iso
+
 // unit of the last digit the directive asks for, given what was printed
 static long double unit_of(const Dir &d, const Shape &S, double x)
 {
@@ -437,6 +564,12 @@ static void run_pf(const std::vector<std::string> &w, out &o, bool strict, bool 
     }
     Shape S = check_shape(d, body, x);
     if (!S.ok) { o.fail("shape: " + S.why + " igris <" + outs + "> glibc <" + refs + ">"); return; }
+    // the ISO shape predicate of Shape.lean (C++ re-implementation) on igris' text and on glibc's
+    if (!iso::shape(d, std::signbit(x), body)) { o.fail("iso shape predicate rejects igris <" + outs + "> glibc <" + refs + ">"); return; }
+    if (refs.size() >= d.pre.size() + d.post.size() &&
+        !iso::shape(d, std::signbit(x), refs.substr(d.pre.size(), refs.size() - d.pre.size() - d.post.size())))
+    { o.fail("iso shape predicate rejects glibc <" + refs + ">"); return; }
+    o.tag("iso-shape");
     if (S.style_e) o.tag(S.expv < 0 ? "exp-neg" : S.expv > 99 ? "exp-3digit" : "exp-pos");
     long double parsed = strtold(S.num.c_str(), 0);
     long double ax = fabsl((long double)x);
@@ -506,6 +639,29 @@ static void run_pfa(const std::vector<std::string> &w, out &o)
     char *e = 0;
     double back = strtod(outs.c_str(), &e);
     if (*e || back != x) o.fail("hex float: igris <" + outs + "> parses back to " + std::to_string(back) + ", glibc <" + ref + ">");
+}
+
+
+// sh / shm <fmt-hex> <neg> <text-hex> [stars]: the ISO shape predicate on a given text (sh: a text
+// glibc printed for this directive - the predicate must accept it; shm: a mutated text - only the
+// agreement of the C++ and the Lean implementation is checked)
+static void run_sh(const std::vector<std::string> &w, out &o, bool mutated)
+{
+    if (w.size() < 4) { o.result = "bad-op"; o.fail("bad op"); return; }
+    bytes fb = unhex(w[1]);
+    std::string fmt(fb.begin(), fb.end());
+    bool neg = w[2] == "1";
+    bytes tb = w[3] == "-" ? bytes() : unhex(w[3]);
+    std::string text(tb.begin(), tb.end());
+    std::vector<long> star;
+    for (size_t i = 4; i < w.size(); i++) star.push_back(strtol(w[i].c_str(), 0, 10));
+    Dir d = parse_dir(fmt, star);
+    if (!d.ok || (size_t)d.stars != star.size() || !d.pre.empty() || !d.post.empty()) { o.result = "bad-op"; o.fail("bad op"); return; }
+    bool r = iso::shape(d, neg, text);
+    o.result = r ? "1" : "0";
+    o.tag(mutated ? "sh-mutated" : "sh-glibc");
+    o.tag(r ? "sh-accept" : "sh-reject");
+    if (!mutated && !r) o.fail("iso shape predicate rejects the glibc text <" + text + "> of " + fmt);
 }
 
 static void run_ar(const std::vector<std::string> &w, out &o)
@@ -798,6 +954,66 @@ static void gen(rng &R, const std::string &tier)
             G.emit_pfL(f, G.ldvalue(), star);
         }
     }
+    // ---- the ISO shape predicate itself: C++ vs Lean implementation on glibc texts (must be
+    //      accepted) and on mutations of them (typical malformations: exponent digits, point,
+    //      zeros, padding, sign)
+    {
+        long N = thorough ? 30000 : 2500;
+        for (long i = 0; i < N; i++)
+        {
+            std::vector<long> star;
+            std::string f = G.directive(star, CONVS[R.below(6)], R.chance(40) ? 0 : (int)R.below(32), R.chance(50) ? 0 : (int)R.below(7), G.rand_prec());
+            double x = G.value();
+            if (!std::isfinite(x)) x = 1.5;
+            char buf[2048];
+            int n;
+            if (star.size() == 0) n = gshim(buf, sizeof buf, f.c_str(), x);
+            else if (star.size() == 1) n = gshim(buf, sizeof buf, f.c_str(), (int)star[0], x);
+            else n = gshim(buf, sizeof buf, f.c_str(), (int)star[0], (int)star[1], x);
+            if (n < 0 || n >= (int)sizeof buf) continue;
+            std::string t(buf, (size_t)n);
+            auto emit = [&](const char *op, const std::string &txt) {
+                std::string l = std::string(op) + " " + hex(f) + " " + (std::signbit(x) ? "1" : "0") + " " + (txt.empty() ? std::string("-") : hex(txt));
+                for (long sv : star) l += " " + std::to_string(sv);
+                puts(l.c_str());
+            };
+            // glibc 2.36 itself misses ISO in the class of finding C13-g-style-carry with `#`: `%#G` of 999999.5
+            // gives 1.E+06 (ISO 1.00000E+06) - there the text is only compared between the two implementations
+            emit(Gen::g_style_carry(f, x, star) ? "shm" : "sh", t);
+            int muts = (int)R.range(1, 3);
+            for (int k = 0; k < muts; k++)
+            {
+                std::string m = t;
+                size_t epos = m.find_first_of("eE");
+                switch (R.below(12))
+                {
+                case 0: if (!m.empty()) m.erase(R.below(m.size()), 1); break;                         // drop a character
+                case 1: if (!m.empty()) { size_t q = R.below(m.size()); m.insert(q, 1, m[q]); } break;    // double one
+                case 2: if (epos != std::string::npos && epos + 2 < m.size()) m.insert(epos + 2, "0"); break; // e+05 -> e+005
+                case 3: if (epos != std::string::npos && epos + 3 < m.size() && m[epos + 2] == '0') m.erase(epos + 2, 1); break; // e+05 -> e+5
+                case 4: { size_t q = m.find('.'); if (q != std::string::npos) m.erase(q, 1); else m.push_back('.'); } break;
+                case 5: if (!m.empty()) m[R.below(m.size())] = "0 .+-e9"[R.below(7)]; break;
+                case 6: m.insert(0, 1, R.chance(50) ? ' ' : '0'); break;
+                case 7: m.push_back(R.chance(50) ? ' ' : '0'); break;
+                case 8: if (epos != std::string::npos) m[epos] = (char)(m[epos] ^ 0x20); break;            // exponent letter case
+                case 9: if (epos != std::string::npos && epos + 1 < m.size()) m[epos + 1] = m[epos + 1] == '+' ? '-' : '+'; break;
+                case 10: { size_t q = m.find_first_of("123456789"); if (q != std::string::npos) m[q] = '0'; } break; // leading digit -> 0
+                default: { size_t q = m.find_first_of("+- "); if (q != std::string::npos) m.erase(q, 1); else m.insert(0, "+"); } break;
+                }
+                emit("shm", m);
+            }
+        }
+        // fixed texts: the exponent digit rule at |X| = 100, `#` with precision 0
+        puts("sh 2565 0 312e303030303030652b313030");     // %e  1.000000e+100
+        puts("shm 2565 0 312e303030303030652b30313030");  // 1.000000e+0100
+        puts("shm 2565 0 312e303030303030652b3030");      // 1.000000e+00 for ... (accepted: shape only)
+        puts("sh 25232e3066 0 332e");                      // %#.0f 3.
+        puts("shm 25232e3066 0 33");                       // %#.0f 3
+        puts("sh 25232e3065 0 332e652b3030");              // %#.0e 3.e+00
+        puts("shm 25232e3065 0 33652b3030");               // %#.0e 3e+00
+        puts("sh 25232e3067 0 332e");                      // %#.0g 3.
+        puts("shm 2567 0 31303030303030");                 // %g 1000000 (finding C13-g-style-carry: rejected)
+    }
     // ---- exhaustive small space: every flag subset x conversion x {no width, 12} x
     //      {no precision, .0, .1, .6} on the special values
     {
@@ -848,6 +1064,8 @@ static void run(const std::vector<std::string> &w, const std::string &, out &o)
     else if (w[0] == "pfs") run_pf(w, o, true);
     else if (w[0] == "pfL") run_pf(w, o, false, true);
     else if (w[0] == "pfa") run_pfa(w, o);
+    else if (w[0] == "sh") run_sh(w, o, false);
+    else if (w[0] == "shm") run_sh(w, o, true);
     else if (w[0] == "ar") run_ar(w, o);
     else { o.result = "bad-op"; o.fail("bad op"); }
 }
